@@ -28,12 +28,18 @@ def main():
             rel = os.path.relpath(p, repo)
             tree = ast.parse(open(p, encoding='utf-8').read())
             funcs, consts, classes = [], [], []
+            profiles = {}
+
+            def prof(q, node):
+                a = node.args
+                profiles[q] = {'nargs': len(a.posonlyargs + a.args + a.kwonlyargs), 'async': isinstance(node, ast.AsyncFunctionDef), 'gen': any(isinstance(x, (ast.Yield, ast.YieldFrom)) for x in ast.walk(node)), 'size': sum(1 for _ in ast.walk(node))}
 
             def rec(body, prefix, in_class):
                 for st in body:
                     if isinstance(st, (ast.FunctionDef, ast.AsyncFunctionDef)):
                         q = prefix + st.name
                         funcs.append(q)
+                        prof(q, st)
                         rec_nested(st, q + '.<locals>.')
                     elif isinstance(st, ast.ClassDef):
                         classes.append(prefix + st.name)
@@ -56,6 +62,7 @@ def main():
                     n = stack.pop()
                     if isinstance(n, (ast.FunctionDef, ast.AsyncFunctionDef)):
                         funcs.append(prefix + n.name)
+                        prof(prefix + n.name, n)
                         rec_nested(n, prefix + n.name + '.<locals>.')
                         continue
                     if isinstance(n, (ast.ClassDef, ast.Lambda)):
@@ -63,7 +70,7 @@ def main():
                     stack.extend(ast.iter_child_nodes(n))
 
             rec(tree.body, '', False)
-            inv[rel] = {'functions': sorted(set(funcs)), 'constants': sorted(set(consts)), 'classes': sorted(set(classes))}
+            inv[rel] = {'functions': sorted(set(funcs)), 'constants': sorted(set(consts)), 'classes': sorted(set(classes)), 'profiles': profiles}
     out = os.path.join(os.path.dirname(os.path.dirname(os.path.abspath(__file__))), 'sa', 'inventory.json')
     json.dump(inv, open(out, 'w'), indent=1, sort_keys=True)
     print(out, sum(len(v['functions']) for v in inv.values()), 'functions', sum(len(v['constants']) for v in inv.values()), 'constants')
